@@ -143,7 +143,18 @@ def run(check, repo, tier):
             buf = I_.heap[I_.heap[W.ref("dev").addr].fields["_read_buffer"].addr]
             return Tup((Tup(tuple(lines)), Tup(tuple(state["received"])), Const(len(buf.items) if buf.items is not None else -1)))
         n_scripts += 1
-        for path in I.explore(lambda I: None, entry, max_dev=(3 if tier == "quick" else None), max_paths=(2000 if tier == "quick" else 60000)):
+        def explored():
+            # a splitter that decides something per packet (a length comparison, say) has exponentially many paths on the
+            # long-line scripts: those are explored with at most two deviating decisions, and running out of budget on
+            # them is recorded, not fatal (the short scripts above are the exhaustive part)
+            if not long_line:
+                yield from I.explore(lambda I: None, entry, max_dev=(3 if tier == "quick" else None), max_paths=(2000 if tier == "quick" else 60000))
+                return
+            try:
+                yield from I.explore(lambda I: None, entry, max_dev=(1 if tier == "quick" else 2), max_paths=(2000 if tier == "quick" else 20000))
+            except AnalysisError as e:
+                check.assume(f"long-line script [{label}] not explored to the end ({e})")
+        for path in explored():
             n_paths += 1
             d = [f"script: {label}", decisions_text(path)]
             if path.outcome != "return":
